@@ -60,7 +60,7 @@ class Tree:
             # members [3] stacked along dim 0 -> [2, 3]
             return LazyStackedTensorDict(member([3]), member([3]), stack_dim=0)
 
-        kind = rng.choice(["td", "td", "td", "lazy_root", "lazy2_root"])
+        kind = rng.choice(["td", "td", "td", "lazy_root", "lazy2_root", "params"])
         self.kind = kind
         if kind == "td":
             d = {"a": torch.zeros(2, 3), "z": torch.ones(2, 3, 1)}
@@ -92,6 +92,11 @@ class Tree:
         elif kind == "lazy_root":
             root = LazyStackedTensorDict(member([3], with_nt=rng.random() < 0.3), member([3]), stack_dim=0)
             self.prog.append("root = LazyStackedTensorDict(m0, m1, stack_dim=0)   # members: batch [3]")
+        elif kind == "params":
+            from tensordict.nn import TensorDictParams
+            pin = rng.random() < 0.5
+            root = TensorDictParams(TensorDict({"a": torch.zeros(2, 3), "sub": TensorDict({"c": torch.zeros(2, 3)}, batch_size=[2, 3])}, batch_size=[2, 3]), lock=pin)
+            self.prog.append(f"root = TensorDictParams(TensorDict(a, sub; batch_size=[2, 3]), lock={pin})")
         else:
             root = LazyStackedTensorDict(inner_stack(), inner_stack(), stack_dim=0)
             self.prog.append("root = LazyStackedTensorDict(lazy_stack(m, m), lazy_stack(m, m), stack_dim=0)")
@@ -110,6 +115,9 @@ class Tree:
         if is_tensorclass(node):
             self.tc[expr] = node       # operations may go through the tensorclass; the reads are those of its tensordict
             return self._walk(node._tensordict, expr + "._tensordict")
+        if "_param_td" in getattr(node, "__dict__", {}):
+            self.nodes[expr] = node    # a TensorDictParams: reads and operations through the wrapper, and on its content
+            return self._walk(node._param_td, expr + "._param_td")
         self.nodes[expr] = node
         if isinstance(node, LazyStackedTensorDict):
             for i, m in enumerate(node.tensordicts):
